@@ -1,12 +1,16 @@
 import HidVerif.Hid.Parser
+import HidVerif.Proofs.ParseRoundTrip
 /-!
 # C11 — expressions group by the documented precedence and associativity
 
 `levels_documented`: the operator tables of `ps_expr2 … ps_expr8`, regenerated from grammar.py,
 are the documented table.  The parser model uses these tables (`Hid/Parser.lean`,
 `psBinLevel`/`psBinRest` = the left-associative fold of `bin_op`) and is tied to the
-implementation by the `parse` suite; the round trip print → parse for all operator pairs and
-triples and random trees is validated against an independent precedence-climbing parser.
+implementation by the `parse` suite.  `documented_grouping` is the inductive proof: for *every*
+operator expression, printing it with the parentheses the documented table requires (and any
+redundant ones) and parsing the tokens with the model of `hidc.parser` gives back exactly that
+tree.  The round trip through the *real* lexer and parser for all operator pairs and triples and
+random trees is additionally executed against an independent precedence-climbing parser.
 -/
 namespace HidVerif.Props.C11
 open HidVerif.Gen HidVerif.Hid.Parse HidVerif.Hid.Lex
@@ -25,5 +29,75 @@ theorem levels_documented : exprLevels = documentedLevels := by decide
 /-- every binary operator token sits on exactly one level -/
 theorem levels_disjoint : ∀ l₁ ∈ exprLevels, ∀ l₂ ∈ exprLevels, l₁.1 ≥ 4 → l₂.1 ≥ 4 → l₁.1 ≠ l₂.1 →
     ∀ op ∈ l₁.2, ∀ op' ∈ l₂.2, op.1 ≠ op'.1 := by decide
+
+/-! ## The inductive proof: print → parse is the identity on operator expressions -/
+
+/-- every context the grammar can reach (`C06.reachable`) lets a plain identifier through the
+flavour test of `ps_func_call` — the one side condition of the theorem -/
+theorem reachable_contexts_ok : ∀ c ∈ [0, 1, 3, 5, 13, 16, 17, 19, 21, 29],
+    has c "FUNC" = false ∨ flavorAllowed c .none = true := by decide
+
+/-- **C11**: for every operator expression `e` — literals, variables, postfix indexing `e[i]` and
+`.length`, the prefix operators `+ - not`, `is` casts to a scalar type, the binary levels `* / %`,
+`+ -`, comparisons and equality, `and`, `or`, with operators taken from the tables regenerated
+from grammar.py, nested to any depth, plus any parentheses the programmer added — and every token
+sequence `ls` that spells `e` with binary operators of equal
+level grouped to the left and parentheses exactly where the documented table requires them
+(`pr 8 e`), the parser returns exactly the tree of `e` (`e.toP`) and leaves whatever follows
+(`rest`, anything that cannot continue an expression: `)`, `]`, `;`, `,`, `{`, end of input …)
+untouched, for all sufficiently large fuel.  Unbounded: by induction on `e`. -/
+theorem documented_grouping (c : Cursor) (ctx : Nat) (hctx : CtxOK ctx) (e : OE) (hwf : e.WF)
+    (ls rest : List Lexeme) (hls : ls.map (·.tok) = pr 8 e) (hc : headCont 9 rest = false) :
+    ∃ n, ∀ fuel, n ≤ fuel → psExpr (.eof c) fuel ctx (ls ++ rest) = .val e.toP rest :=
+  parse_pr c ctx hctx e hwf ls rest hls hc
+
+/-- postfix binds tighter than prefix, prefix tighter than `is`, `is` tighter than `*`:
+`-a[i].length is int * b` is `((-(a[i].length)) is int) * b` and prints without parentheses, while a cast
+of a product or an index into a negation needs them -/
+example :
+    let a : OE := .var [97]; let b : OE := .var [98]; let i : OE := .var [105]
+    pr 8 (.bin 4 "MUL" "Mul" (.cast (.un "SUB" "Neg" (.len (.index a i))) "DataType.INT" .int) b) =
+      [tkOp "SUB", .ident [97] .none, tkLS, .ident [105] .none, tkRS, tkDot, tkLength, tkIS, .enum "DataType.INT",
+       tkOp "MUL", .ident [98] .none] ∧
+    pr 8 (.cast (.bin 4 "MUL" "Mul" a b) "DataType.INT" .int) =
+      [tkL, .ident [97] .none, tkOp "MUL", .ident [98] .none, tkR, tkIS, .enum "DataType.INT"] ∧
+    pr 8 (.index (.un "SUB" "Neg" a) i) = [tkL, tkOp "SUB", .ident [97] .none, tkR, tkLS, .ident [105] .none, tkRS] := by
+  refine ⟨by decide, by decide, by decide⟩
+
+/-- what the printer does on `a - b - c * -d`, `(a - b) * c` and `a - (b - c)`: no parentheses in the
+first, required ones in the others -/
+example :
+    let a : OE := .var [97]; let b : OE := .var [98]; let c : OE := .var [99]; let d : OE := .var [100]
+    pr 8 (.bin 5 "SUB" "Sub" (.bin 5 "SUB" "Sub" a b) (.bin 4 "MUL" "Mul" c (.un "SUB" "Neg" d))) =
+      [.ident [97] .none, tkOp "SUB", .ident [98] .none, tkOp "SUB", .ident [99] .none, tkOp "MUL", tkOp "SUB", .ident [100] .none] ∧
+    pr 8 (.bin 4 "MUL" "Mul" (.bin 5 "SUB" "Sub" a b) c) =
+      [tkL, .ident [97] .none, tkOp "SUB", .ident [98] .none, tkR, tkOp "MUL", .ident [99] .none] ∧
+    pr 8 (.bin 5 "SUB" "Sub" a (.bin 5 "SUB" "Sub" b c)) =
+      [.ident [97] .none, tkOp "SUB", tkL, .ident [98] .none, tkOp "SUB", .ident [99] .none, tkR] := by
+  refine ⟨by decide, by decide, by decide⟩
+
+/-- structural equality on the trees of the fragment (for the executable example below) -/
+def peq : PExpr → PExpr → Bool
+  | .int a, .int b => a == b
+  | .var a, .var b => a == b
+  | .un o e, .un o' e' => o == o' && peq e e'
+  | .bin o l r, .bin o' l' r' => o == o' && peq l l' && peq r r'
+  | .index e i, .index e' i' => peq e e' && peq i i'
+  | .len e, .len e' => peq e e'
+  | .is_ e t, .is_ e' t' => peq e e' && t == t'
+  | _, _ => false
+
+/-- non-vacuity: the hypotheses are satisfiable (a well-formed expression, a reachable context,
+a stop token), and the parser model run on the printed tokens indeed returns the tree -/
+example :
+    let a : OE := .var [97]; let b : OE := .var [98]; let c : OE := .var [99]
+    let e : OE := .bin 5 "SUB" "Sub" (.bin 5 "SUB" "Sub" a (.cast (.len (.index b (.bin 5 "ADD" "Add" c (.lit 1)))) "DataType.BYTE" .byte))
+      (.bin 4 "MUL" "Mul" c (.un "SUB" "Neg" (.lit 7)))
+    let z : Cursor := ⟨0, 0⟩
+    let ls : List Lexeme := (pr 8 e).map (fun t => ⟨t, z, z⟩)
+    let semi : Lexeme := ⟨.enum "SepToken.SEMICOLON", z, z⟩
+    e.WF ∧ CtxOK 3 ∧ headCont 9 [semi] = false ∧
+      (match psExpr (.eof z) 40 3 (ls ++ [semi]) with | .val t r => peq t e.toP && r == [semi] | _ => false) = true := by
+  refine ⟨by simp only [OE.WF]; decide, by unfold CtxOK; decide, by decide, by decide +kernel⟩
 
 end HidVerif.Props.C11
